@@ -68,7 +68,15 @@ def source_sets(sc):
     with open(os.path.join(d1, "wtmp"), "wb") as f:
         f.write(ut)
     shutil.copyfile(os.path.join(REPO, "logs/programs/evtx/Microsoft-Windows-Kernel-PnP%4Configuration.evtx"), os.path.join(d1, "k.evtx"))
-    sets.append((d1, ["a.log", wide, "wtmp", "k.evtx"], ["-b", "2023-03-10T03:49:43.570000+00:00"]))
+    # sources that are read but print nothing, under the widest names of the set: one without any timestamp, one whose
+    # messages all lie after the window (-w pads to the widest PRINTED name)
+    silent1 = "zz silent source with the longest name of all \u65e5\u672c\u8a9e.log"
+    with open(os.path.join(d1, silent1), "wb") as f:
+        f.write(b"no timestamp on this line\nnor on this one\n" * 3)
+    silent2 = "zz-after-the-window-and-also-quite-long.log"
+    with open(os.path.join(d1, silent2), "wb") as f:
+        f.write(b"2023-03-11T00:00:00+00:00 src=S idx=0\n2023-03-11T00:00:01+00:00 src=S idx=1\n")
+    sets.append((d1, ["a.log", wide, "wtmp", "k.evtx", silent1, silent2], ["-b", "2023-03-10T03:49:43.570000+00:00"]))
     # S2: journal + text
     d2 = os.path.join(sc, "s2")
     os.makedirs(d2)
@@ -81,7 +89,10 @@ def source_sets(sc):
         f.write(b"2023-04-02T07:06:45+00:00 src=L idx=0 " + b"L" * 3000 + b"\n" +
                 b"2023-04-02T07:06:55+00:00 src=L idx=1 short head\n" + b"  " + b"c" * 2500 + b"\n" +
                 b"2023-04-02T07:07:05+00:00 src=L idx=2 " + b"e" * 2100 + b"\n")
-    sets.append((d2, ["b.log", "u.journal", "long.log"], []))
+    silent3 = "zzz-nothing-datable-in-here-but-a-long-name.log"
+    with open(os.path.join(d2, silent3), "wb") as f:
+        f.write(b"plain words\n" * 5)
+    sets.append((d2, ["b.log", "u.journal", "long.log", silent3], []))
     return sets
 
 
